@@ -8,6 +8,7 @@ safety): bounded fuzzing in the harness only.
 -/
 import SwV.Model.C33
 import SwV.Spec.C33
+import SwV.Gen.C33
 namespace SwV.Props.C33
 open SwV.Model.C33 SwV.Spec.C33
 
@@ -140,5 +141,20 @@ theorem cipher_never_gzip (c : Codec) (i : UpIn) (h : i.cipher = true) :
 theorem dishonest_witness :
     let i : UpIn := ⟨[], [], false, true, [31, 139, 7], [], [], false⟩
     fetch tagCodec (upload tagCodec i) .full ≠ some i.data := by decide
+
+/-! ## bridges: the modelled functions are pinned to the source text they were read from (regenerated on every check) -/
+
+/-- an edit of any of these functions breaks this obligation: the model (Model/C33.lean) has to be re-read against the new text -/
+theorem bridge_source_pins :
+    SwV.Gen.C33.src_doUploadData = "523d3f8700ad5bb5" ∧
+    SwV.Gen.C33.src_upload_content = "1865caac937330a7" ∧
+    SwV.Gen.C33.src_IsCompressableFileType = "f13ca084edb33e44" ∧
+    SwV.Gen.C33.src_DecompressData = "d113d7b990a08dda" ∧
+    SwV.Gen.C33.src_ungzipData = "bcef7f751b482259" ∧
+    SwV.Gen.C33.src_ReadUrlAsStream = "f82f7616faa8b3f8" ∧
+    SwV.Gen.C33.src_readEncryptedUrl = "9cc4016521da0613" ∧
+    SwV.Gen.C33.src_ParseUpload = "aa29abd9d280d9c0" ∧
+    SwV.Gen.C33.src_parseMultipart = "e57aea27bc466fb3" := by
+  decide
 
 end SwV.Props.C33
